@@ -20,6 +20,9 @@ STRENGTHENED = {
     "C04-agent-1": "MISSED at first (no duplicated rows, no mixed binary/general-integer slice); caught after redundant rows and the nearly-binary family were added (2 hits in 16 k quick runs: marginal, the thorough tier is the reliable detector)",
     "C04-agent-3": "MISSED at first (no warm start violated only x >= 0); caught after the `negative_entry` warm-start kind was added",
     "C15-agent2-2": "MISSED at first (the neighbour table handed out the very label objects of the node list); caught after `fresh` labels (equal, not identical; also tuple and large-int labels) were added",
+    "C01-agent-2": "would have been MISSED (no clause repeated a literal; the author's own 150 k random enumerations without repeats saw nothing); caught after the duplicate-literal / tautology clause shapes were added",
+    "C02-agent2-1": "MISSED at first by the C02 check (the C01 check reported it as bad_model); C02 now also reports a returned non-model (`answer_is_not_a_model`): what came back is not 'a model'",
+    "C02-agent2-3": "would have been MISSED (every clause was passed as its own fresh list); caught after equal clauses are passed as one shared list object / as tuples and repeated clauses were generated",
     "C17-agent-3": "MISSED at first (only integer roll widths were generated); caught after fractional roll widths were added",
 }
 WHAT = {}
